@@ -3,7 +3,7 @@
 import json, os
 
 CLAIMED = {
- "C01": ("exploration", "3.C01", "Seeded search over fault profiles x transfer plans on the real async client + real simulator; complete fault-free (start,length) triangle in thorough. Evidence over explored seeds, not proof.",
+ "C01": ("exploration", "3.C01", "Seeded search over fault profiles x transfer plans on the real async client + real simulator; complete fault-free (start,length) triangle in thorough; the threaded structure in World T; concurrent transfer pairs on one connection; sendto() failures. Evidence over explored seeds, not proof.",
          "SimLoop/SimNet faithful to asyncio/UDP semantics; datagrams never corrupted; spa block constant during a transfer; quiescence between transfers."),
  "C06": ("exploration", "3.C06", "Seeded search over caller plans x reply-fault profiles x timing tables on the full real client; history oracle over calls, sends, deliveries and queue pops (bounded fresh attempts, reply attribution, duration bound, mutual exclusion, FIFO service, completion, gates). Evidence over explored seeds.",
          "SimLoop FIFO/deadline-order faithful to asyncio; gate window defined by the library's own 2 x ping frequency (+1 s and injected stall); stale same-verb replies are indistinguishable at protocol level and counted by a probe."),
@@ -11,23 +11,23 @@ CLAIMED = {
          "Inner payloads of known verbs well-formed; mean junk rate below the queue's service rate; ambiguous framing held to exactly-once/residence only."),
  "C05": ("exploration", "3.C05", "Seeded search over STATP histories (0-30 records, hot/boundary/repeated positions, 1-byte form) interleaved with refreshes, under loss/dup/reorder/stalls; history oracle: applied partial writes == concatenation of arrived records in arrival order, one STATQ (seq 1..191) per arrival.",
          "Records stay inside the block; arrival order = delivery order at the client's endpoint; an abandoned connection is held to prefix consistency only."),
- "C15": ("exploration", "3.C15", "Seeded search over responder sets (identifiers, names incl. '|' and latin-1), reply multiplicity/latency/loss, eight filter settings, drawn timing tables and loop stalls; oracle on the listed set (must/may windows that allow the consumer's one-per-interval service time), field integrity, termination bounds, endpoint close and LOC task cleanup.",
+ "C15": ("exploration", "3.C15", "Seeded search over responder sets (identifiers, names incl. '|' and latin-1), reply multiplicity/latency/loss, eight filter settings, drawn timing tables and loop stalls; oracle on the listed set (must/may windows that allow the consumer's one-per-interval service time), field integrity, termination bounds, endpoint close and LOC task cleanup; 1 run in 40 drives the blocking GeckoLocator (caller, engine and retry threads) in World T (all clauses but the identifier filter, which that class does not have).",
          "Only hello replies reach the locator endpoint; two spas never share an identifier."),
  "C17": ("exploration", "3.C17", "Seeded search over sleeper/switch schedules in virtual time (1-20 concurrent config_sleep callers, 0-12 switches, same-instant cases, drawn tables and callback costs/stalls) with a monitor on the live config after every callback; 1 in 5 runs is the full client with the model spa flipping pump/blower bytes, sampling 'active iff some pump or blower is on' after every callback.",
          "A shared change future exists before the first switch; 'at once' = all time between switch and wake is injected callback cost (+2 ms); only upper bounds on sleep are checked."),
  "C08": ("exploration", "3.C08", "Seeded search over full-system histories: the real manager driven by its own pump through fault phases (loss, blackout, one-way, RF-error, reboot), user resets / set-spa-info (timed or triggered by a chosen event), runtime events injected from other tasks while the client handler is suspended; every delivery and every callback-boundary state sample is walked against a reference lifecycle table (legal transitions, ready/teardown bracketing, phase brackets, reset postcondition, sensor text). Closure of the reachable abstract-state set is measured (saturation), not proved.",
          "Observation through the public handle_event/state/facade/sensor properties (plus guarded reads of _spa); a delivery chain cut because the client's own handler was cancelled owes nothing further; known findings f/j listed in known_findings.json."),
- "C09": ("exploration", "3.C09", "Seeded search over fault scripts (healthy/lossy/blackout/one-way/RF-error/reboot phases, resets and set-spa-info at drawn or event-triggered instants, drawn tables, stalls, handler suspension) followed by a heal; bounded-liveness oracle: CONNECTED with a mirroring facade within a bound derived from the run's tables, total blackouts reported within the detection bound, the sequence-pump task alive at every sample.",
+ "C09": ("exploration", "3.C09", "Seeded search over fault scripts (healthy/lossy (+ sendto failures)/blackout/one-way/RF-error/reboot phases, per-run knobs for the RF-error halt threshold and the handshake step pause, resets and set-spa-info at drawn or event-triggered instants, drawn tables, stalls, handler suspension) followed by a heal; bounded-liveness oracle: CONNECTED with a mirroring facade within a bound derived from the run's tables, total blackouts reported within the detection bound, the sequence-pump task alive at every sample.",
          "Bounds are deliberate over-approximations from the tables; no obligation while faults flow; known findings b/c listed in known_findings.json."),
- "C10": ("fault_enumeration", "3.C10", "Crash-point enumeration inside seeded schedules: 7 scenarios x scenario seeds are run once to count loop callbacks N, then re-run with async_reset / async_set_spa_info / context exit injected after callback k (quick: seeded stratified sample of k; thorough: every k for scenarios up to 3000 callbacks, first 1500 + stride beyond), plus 5/20/50 consecutive reconnect cycles; oracle: transports closed, connection tasks done within 1 s, no library task after exit, no observer call or event from the abandoned connection during 300 s of late traffic and timers, bounded endpoints/tasks over cycles.",
+ "C10": ("fault_enumeration", "3.C10", "Crash-point enumeration inside seeded schedules: 7 scenarios x scenario seeds are run once to count loop callbacks N, then re-run with async_reset / async_set_spa_info / context exit injected after callback k (quick: seeded stratified sample of k; thorough: every k for scenarios up to 3000 callbacks, first 1500 + stride beyond), plus 5/20/50 consecutive reconnect cycles; oracle: transports closed, connection tasks done within 1 s, no library task after exit, no observer call or event from the abandoned connection during 300 s of late traffic and timers, bounded endpoints/tasks over cycles; a context exit that does not return within 300 virtual s is a verdict (watchdog).",
          "'Promptly' = 1 s + injected stall; a callback boundary is an await point of some task; observers are harness callbacks registered via the public watch()."),
- "C13": ("exploration", "3.C13", "Closed loop on a benign network: for every shipped snapshot the real client connects to the model spa and runs seeded histories of facade commands (every pump mode, blower/light/eco on/off from both states, target temperature, unit spellings, watercare by index/label) at drawn instants in both timing modes, some while another request is in flight; per command: exactly one (or zero when already in state) well-formed command reaches the spa, independently decoded (pack type, config/log versions, command-range sequence, keypad code from an independent table, field position, no collateral bits), the model's item reads the requested value and the facade reads it back after the echo.",
+ "C13": ("exploration", "3.C13", "Closed loop on a benign network: for every shipped snapshot the real client connects to the model spa and runs seeded histories of facade commands (every pump mode, blower/light/eco on/off from both states, target temperature, unit spellings, watercare by index/label) at drawn instants in both timing modes, some while another request is in flight; per command: exactly one (or zero when already in state) well-formed command reaches the spa, independently decoded (pack type, config/log versions, command-range sequence, keypad code from an independent table, field position, no collateral bits), the model's item reads the requested value and the facade reads it back after the echo; commands synchronised to the instant the library's own GETWC/STATU/APING leaves; request timeout as a per-run knob; every fifth sweep drives the blocking facade (sync twins) in World T with the same oracle.",
          "Spa application semantics are a harness model (ModelSpa); temperature read-back within one raw unit; benign network only (the statement quantifies over inputs and histories, not faults)."),
- "C20": ("exploration", "3.C20", "World T: the real GeckoUdpSocket engine thread (and GeckoSpa handshake, GeckoSimulator engine) on parked real threads under a seeded baton scheduler in virtual time; four drawn sub-scenarios: FIFO/throttled sends with 1-5 (line-pre-empted) callers and incoming traffic, first-match dispatch with overlapping prefixes / runtime (un)registration / raising handlers, handler life for drawn (T, N, answer instant), and the real handshake under scripted loss of requests, replies and chosen segments.",
+ "C20": ("exploration", "3.C20", "World T: the real GeckoUdpSocket engine thread (and GeckoSpa handshake, GeckoSimulator engine) on parked real threads under a seeded baton scheduler in virtual time; four drawn sub-scenarios: FIFO/throttled sends with 1-5 (line-pre-empted) callers and incoming traffic, first-match dispatch with overlapping prefixes / runtime (un)registration / raising handlers, handler life for drawn (T, N, answer instant), (incl. a send backlog longer than the timeout), and the real handshake under scripted loss of requests, replies and chosen segments.",
          "T never below two engine iterations plus the send-queue delay; registration changes between datagrams; only the choice of who runs is simulated, the threads are real."),
- "C16": ("exploration", "3.C16", "Seeded search in three parts: linearizability of the threaded counter against a fetch-and-increment model with 2-6 real caller threads pre-empted at line level inside udp_socket.py across both wraps; a single-caller walk over two full cycles of both kinds on both implementations under drawn kind interleavings (every reachable counter state); and a wire monitor over every datagram of the full async client (both cycles wrap on the wire, new connections restart) and of the full blocking facade.",
+ "C16": ("exploration", "3.C16", "Seeded search in three parts: linearizability of the threaded counter against a fetch-and-increment model with 2-6 real caller threads pre-empted at line level inside udp_socket.py across both wraps; a single-caller walk over two full cycles of both kinds on both implementations under drawn kind interleavings (every reachable counter state); and a wire monitor over every datagram of the full async client (both cycles wrap on the wire, new connections restart) and of the full blocking facade; half of the async wire runs are lossy (retries, STATP acknowledgements during waits, sendto() failures).",
          "Fewer than one full cycle is drawn concurrently; on an async connection draw and send share a callback so wire order is draw order."),
- "C03": ("exploration", "3.C03", "A monitor on every status-block update of both structure classes (the client's async structure and the spa-side blocking structure), with every item watched through the public API, compares the notifications with an independent decode of old and new block: exactly once iff the decoded value (temperatures: stored word) changed, right sender/old/new, new block already visible, silent otherwise, watch-twice once, removed never. Workload: seeded STATP/refresh histories (item-aimed, straddling, identical, A-B-A, 1-byte form) under dup/reorder/loss for every shipped snapshot. The field-geometry part of C03 is a function of its input; the claim is about every update the simulated histories produce, coverage of geometries is a measured probe table.",
+ "C03": ("exploration", "3.C03", "A monitor on every status-block update of both structure classes (the client's async structure and the spa-side blocking structure), with every item watched through the public API, compares the notifications with an independent decode of old and new block: exactly once iff the decoded value (temperatures: stored word) changed, right sender/old/new, new block already visible, silent otherwise, watch-twice once, removed never; several observers per item with re-entrant unwatch (self / next / all) from inside a callback judged against a reference walk. Workload: seeded STATP/refresh histories (item-aimed, straddling, identical, A-B-A, 1-byte form) under dup/reorder/loss for every shipped snapshot. The field-geometry part of C03 is a function of its input; the claim is about every update the simulated histories produce, coverage of geometries is a measured probe table.",
          "Independent decoder works from each item's declaration; temperature 'changed' = stored word changed."),
 }
 PENDING = {}
